@@ -209,6 +209,9 @@ def main(argv=None):
             tasks.append((prop, c.name, a.tier, seed, s, ns, a.scale))
     # expensive first does not matter much; interleave checks so that all progress
     results = []
+    if not tasks:
+        print(f"HARNESS-ERROR property={prop} no check selected (--only {a.only})")
+        return 2
     if NPROC <= 1 or len(tasks) == 1:
         results = [_task(t) for t in tasks]
     else:
